@@ -40,6 +40,11 @@ object is re-added only if its loaded values are still current; after ``close()`
 objects make no claim.
 A primary-key change is flushed at once (an attribute load while a PK change is pending
 raises ObjectDeletedError -- reported separately, outside this property).
+Intent rule: what the history explicitly add()s -- an object (graph) built outside any
+session (ops tnew / collection edits on parents outside the session / add), or an object
+marked with Session.delete() and re-added before the flush (op undel) -- is persistent after
+the flush.  A member once removed from a delete-orphan collection of a parent outside any
+session and later dropped by the flush is ``member-orphaned-outside-session-dropped-at-flush``.
 Histories whose flush raises are not judged here (C31 / C32 judge those).
 Two directed witnesses run on shard 0 of every run: the pending delete-orphan child that
 is dropped when moved to another parent, and the delete cascade onto a stale, already
@@ -76,7 +81,7 @@ KNOBS = [
 
 # no savepoints here: a SAVEPOINT rollback leaves what unmodified objects loaded while it was
 # open stale by design (S8); C33 owns savepoints and encodes that
-WEIGHTS = {"rollback": 1, "close": 1, "nest": 0, "spc": 0, "spr": 0}
+WEIGHTS = {"rollback": 1, "close": 1, "nest": 0, "spc": 0, "spr": 0, "tnew": 8, "add": 5, "undel": 4}
 
 
 class Zoos:
@@ -113,6 +118,8 @@ def judge(ctx, rig, R, where, ops, knobs, reader=None, fresh_snap=None):
     cnt = {}
     snap = R.snapshot(rig)
     findings = R.relation(rig, snap, reader or rig.read_txn, cnt)
+    if where.startswith(("flush", "final-flush")):
+        findings += R.intent_findings(rig, snap, cnt)
     if fresh_snap is not None:
         findings += R.fresh_compare(rig, fresh_snap, cnt)
     for k, v in cnt.items():
@@ -216,6 +223,7 @@ Z1_ALPHA = [
     ["repl", 0, "children", [3]], ["clr", 0, "children"], ["del", 2], ["del", 0],
     ["set", 2, "val", 9], ["expire", 0], ["flush"], ["touch", 1, "children"],
     ["set", 1, "n", None], ["set", 1, "name", None], ["new", "Child", None, {"val": 5}, {"parent": 1}],
+    ["undel", 2], ["undel", 0],
 ]
 Z3_BASE = [
     ["new", "Left", 0, {"name": "l0"}, {}],
@@ -250,6 +258,20 @@ Z2_ALPHA = [
     ["rem", 0, "children", 1], ["del", 0], ["del", 1], ["m2o", 2, "parent", 1], ["m2o", 2, "parent", None],
     ["rem", 0, "tags", 3], ["del", 3], ["new", "Node", None, {"label": "nx"}, {"parent": 1}], ["m2o", 4, "node", 2],
     ["del", 4], ["rem", 5, "nodes", 2], ["del", 5], ["flush"], ["set", 1, "label", "z"],
+    ["undel", 0], ["undel", 1],
+]
+# graph building outside the session over two delete-orphan parent classes (Z9)
+Z9_BASE = [
+    ["new", "Folder", 0, {"name": "f0"}, {}],
+    ["commit"],
+    ["tnew", "Draft", 1, {"title": "d1"}],
+    ["tnew", "Note", 2, {"text": "n2"}],
+    ["tnew", "Note", 3, {"text": "n3"}],
+    ["app", 1, "notes", 2],
+]
+Z9_ALPHA = [
+    ["rem", 1, "notes", 2], ["clr", 1, "notes"], ["repl", 1, "notes", [3]], ["pop", 1, "notes"], ["app", 1, "notes", 3],
+    ["add", 2], ["add", 3], ["add", 1], ["app", 0, "notes", 2], ["app", 0, "notes", 3], ["flush"], ["del", 0],
 ]
 DROP_BASE = [
     ["new", "Owner", 0, {"name": "o0"}, {}],
@@ -322,7 +344,7 @@ def run(ctx):
         idx = 0
         maxlen = 3 if ctx.thorough else 2
         for L in range(1, maxlen + 1):
-            for name, base, alpha in (("Z2", Z2_BASE, Z2_ALPHA), ("Z3", Z3_BASE, Z3_ALPHA), ("Z1", Z1_BASE, Z1_ALPHA)):
+            for name, base, alpha in (("Z9", Z9_BASE, Z9_ALPHA), ("Z2", Z2_BASE, Z2_ALPHA), ("Z3", Z3_BASE, Z3_ALPHA), ("Z1", Z1_BASE, Z1_ALPHA)):
                 for seq in itertools.product(range(len(alpha)), repeat=L):
                     idx += 1
                     if not ctx.mine(idx):
@@ -340,7 +362,7 @@ def run(ctx):
         # quick: length-3 sequences are sampled instead of enumerated
         if ctx.quick:
             for j in range(25):
-                for name, base, alpha in (("Z1", Z1_BASE, Z1_ALPHA), ("Z3", Z3_BASE, Z3_ALPHA), ("Z2", Z2_BASE, Z2_ALPHA)):
+                for name, base, alpha in (("Z1", Z1_BASE, Z1_ALPHA), ("Z3", Z3_BASE, Z3_ALPHA), ("Z2", Z2_BASE, Z2_ALPHA), ("Z9", Z9_BASE, Z9_ALPHA)):
                     if not ctx.budget_ok() or part_a_over():
                         break
                     k = (ctx.shard + 2 * rng.randrange(2)) % len(KNOBS)
